@@ -107,6 +107,11 @@ fn all_project_dirs() -> Vec<String> {
 pub fn worker(_space: &str, idx: u64) -> Value {
     let cases = lib_cases();
     let (dir, extra) = &cases[idx as usize];
+    // the library side of this directory is computed in a process that has converted its sibling before (the same
+    // names with other contents): the model the library yields does not depend on that
+    if dir.ends_with("same-names-other-contents") {
+        let _ = catch(std::panic::AssertUnwindSafe(|| hulc2model::collect_hulc_data(format!("{}/gen01", synthetic_root()), *extra, *extra)));
+    }
     match catch(std::panic::AssertUnwindSafe(|| hulc2model::collect_hulc_data(dir, *extra, *extra))) {
         Ok(Ok(m)) => json!({"verdict": "ok", "json": m.as_json().unwrap_or_default(), "debug": format!("{:?}", m)}),
         Ok(Err(e)) => json!({"verdict": "err", "msg": format!("{}", e)}),
